@@ -114,6 +114,36 @@ func ctxFromParam(v ssa.Value, d int) bool {
 	return ok && n > 0
 }
 
+// callsReach: the call instruction can run target (through static callees, the call graph, or sync.Once.Do of a method value).
+func callsReach(p *Prog, c ssa.CallInstruction, target *ssa.Function) bool {
+	var roots []*ssa.Function
+	if g := staticCallee(c); g != nil {
+		roots = append(roots, g)
+		if g.Pkg != nil && g.Pkg.Pkg.Path() == "sync" && g.Name() == "Do" && len(c.Common().Args) == 2 {
+			switch x := stripConv(c.Common().Args[1]).(type) {
+			case *ssa.MakeClosure:
+				fn := x.Fn.(*ssa.Function)
+				roots = append(roots, fn)
+				eachCall(fn, func(c2 ssa.CallInstruction) {
+					if g2 := staticCallee(c2); g2 != nil {
+						roots = append(roots, g2)
+					}
+				})
+			case *ssa.Function:
+				roots = append(roots, x)
+			}
+		}
+	} else {
+		roots = append(roots, p.calleesAt(c)...)
+	}
+	for _, r := range roots {
+		if r == target || p.reachable(r)[target] {
+			return true
+		}
+	}
+	return false
+}
+
 func c15(r *Report, s *Sem) {
 	p := r.P
 	a := s.anchors()
@@ -179,6 +209,37 @@ func c15(r *Report, s *Sem) {
 		}
 		return "", false
 	}
+	// ---- E: what happens once the context has ended
+	E := r.Rule("E", "prompt at expiry: on the `<-ctx.Done()` arm of a select in an inventoried function nothing can run the stop-and-wait routine (its wait for the receiver is bounded only by the transport's poll interval — acceptable after a terminal envelope, not when a deadline has passed)", 8)
+	if a.stopFn != nil {
+		for _, fn := range fns {
+			eachInstr(fn, func(in ssa.Instruction) {
+				sel, ok := in.(*ssa.Select)
+				if !ok {
+					return
+				}
+				for i, st := range sel.States {
+					if _, isDone := isCtxDoneChan(st.Chan); !isDone || st.Dir != types.RecvOnly {
+						continue
+					}
+					arm := selectArmBlock(sel, i)
+					if arm == nil {
+						continue
+					}
+					bad := ""
+					for b := range reachBlocks(arm, func(from *ssa.BasicBlock, k int) bool { return from.Succs[k] == sel.Block() }) {
+						for _, x := range b.Instrs {
+							if c, isCall := x.(*ssa.Call); isCall && callsReach(p, c, a.stopFn) {
+								bad = "reaches the stop-and-wait routine through the call at " + p.instrPos(x)
+							}
+						}
+					}
+					r.Check(E, "func "+fnName(fn)+" / arm <-ctx.Done() returns at once", p.instrPos(in), bad == "", bad)
+				}
+			})
+		}
+	}
+
 	for _, fn := range fns {
 		for _, bs := range blockingSites(fn) {
 			construct := "func " + fnName(bs.fn) + " / " + bs.kind
